@@ -81,15 +81,16 @@ def planted_counts(c):
 COMPANION_DIRECTION = (0.1, 0.1, 0.8)
 
 
-def record(c, d, off, n, nfail, direction=(1 / 3, 1 / 3, 1 / 3)):
+def record(c, d, off, n, nfail, direction=(1 / 3, 1 / 3, 1 / 3), out_of_codespace=0):
     p = round(c['pth'] * (1000 + off) / 1e7, 9)
     inputs, width = sim_inputs(c['family'], d, p, direction)
     bad = [1] + [0] * (width - 1)
     good = [0] * width
+    k = min(nfail, out_of_codespace)      # failed trials that ended outside the code space
     return {'results': {'n_runs': n, 'wall_time': 0.001 * n,
-                        'effective_error': [bad] * nfail + [good] * (n - nfail),
+                        'effective_error': [good] * k + [bad] * (nfail - k) + [good] * (n - nfail),
                         'success': [False] * nfail + [True] * (n - nfail),
-                        'codespace': [True] * n},
+                        'codespace': [False] * k + [True] * (n - k)},
             'inputs': inputs}
 
 
@@ -110,6 +111,12 @@ def materialise(c, counts, layout, work):
     if kind == 'one_file':
         p = os.path.join(work, 'results.json.gz')
         write_gz(p, [record(c, d, off, n, nf) for d, off, nf in rows])
+        return p
+    if kind == 'out_of_codespace':
+        p = os.path.join(work, 'results.json.gz')
+        dmax = max(c['ds'])
+        write_gz(p, [record(c, d, off, n, nf, out_of_codespace=(nf * d) // (2 * dmax))
+                     for d, off, nf in rows])
         return p
     if kind == 'files':
         k = layout['parts']
